@@ -379,6 +379,12 @@ def check_precalc(rep, prog):
     oku = has(ts, 'output_freqs.flat[0] += numpy.sum(t_alt < 2)') and has(ts, 'output_freqs.flat[0] += numpy.sum(all_enough_calls == False)') and has(ts, '(n_ref, n_alt) = (n_ref[t_alt >= 2], n_alt[t_alt >= 2])')
     rep.ob('R-COMPL', 'simulate_GATK uncalled sites', oku, 'sites with fewer than two alternative reads / too few called individuals are added to entry 0; the complement continues', m.rel, sim.lineno,
            what='every simulated site is counted exactly once, uncalled ones in the masked corner')
+    sub = prog.func(LP, 'subsample_genotypes_1D')
+    perm = [c for c in own_nodes(sub) if isinstance(c, ast.Call) and isinstance(c.func, ast.Attribute) and c.func.attr in ('permuted', 'permutation', 'shuffle', 'choice')]
+    okp = len(perm) == 1 and perm[0].func.attr == 'permuted' and any(k.arg == 'axis' and ast.unparse(k.value) == '1' for k in perm[0].keywords) and \
+        has(ast.unparse(sub), 'subsampled_data.append(permuted_loci[:, :n_subsampling // 2])')
+    rep.ob('R-INDEP', 'subsample_genotypes_1D shuffling', okp, 'shuffle call: %s' % (ast.unparse(perm[0]) if perm else 'none'), m.rel, sub.lineno,
+           what='every locus is shuffled independently (Generator.permuted along axis 1; Generator.permutation would apply ONE column order to all loci) before the first n/2 genotypes are kept')
     cc = prog.func(LP, 'compute_cov_dist')
     tcc = ast.unparse(cc)
     okn = has(tcc, 'numpy.array([elements, counts / counts.sum()])')
